@@ -77,8 +77,8 @@ func init() {
 		Old: "return fmt.Sprint(getArchivePathToBundles(), repo, \"/\", bundleID, \"/\", bundleDescriptorFile)", New: "return fmt.Sprint(getArchivePathToBundles(), repo, \"/\", bundleID, \"/\", \"bundle.yml\")",
 		Expect: "builder-parser"})
 	addWitness(witness{Prop: "C20", Name: "atoi-index", File: "pkg/model/bundle.go",
-		Old: "\t\tindex, err := strconv.ParseUint(flMatch[2], 10, 64)\n\t\tif err != nil {\n\t\t\treturn ConsumableStorePathMetadata{}, err\n\t\t}\n\t\tinfo.Index = index",
-		New: "\t\tindex, err := strconv.Atoi(flMatch[2])\n\t\tif err != nil {\n\t\t\treturn ConsumableStorePathMetadata{}, err\n\t\t}\n\t\tinfo.Index = uint64(index)",
+		Old:    "\t\tindex, err := strconv.ParseUint(flMatch[2], 10, 64)\n\t\tif err != nil {\n\t\t\treturn ConsumableStorePathMetadata{}, err\n\t\t}\n\t\tinfo.Index = index",
+		New:    "\t\tindex, err := strconv.Atoi(flMatch[2])\n\t\tif err != nil {\n\t\t\treturn ConsumableStorePathMetadata{}, err\n\t\t}\n\t\tinfo.Index = uint64(index)",
 		Expect: "numeric-width"})
 	addWitness(witness{Prop: "C20", Name: "prefix-loses-separator", File: "pkg/model/bundle.go",
 		Old: "\treturn fmt.Sprint(getArchivePathToBundles(), repo+\"/\")", New: "\treturn fmt.Sprint(getArchivePathToBundles(), repo)",
@@ -612,6 +612,8 @@ func runC20(c *Ctx) {
 		}
 	}
 	c.requireInstances("descriptor-tags", 40)
+	// generated-path detection recognises exactly the reserved locations (shared with C04)
+	checkGeneratedRegexp(c)
 }
 
 // mayCoincide: can two templates produce the same string (segment-wise unification; slots match any text without '/')?
